@@ -276,7 +276,25 @@ def run_case(R, level, variant, op, auth_pw, priv_pw, engine_id, ctx_name, boots
             hashname = "sha1" if hashname == "md5" else "md5"
             level = "v3-%s-priv" % hashname
         w.agent.users[rig.USER.encode()] = rig.agent_user_for(level, auth_pw=auth_pw, priv_pw=new_pw, variant=new_variant)
-        c.configure(credentials=V3(rig.USER, Auth(auth_pw, hashname), Priv(new_pw, new_variant)))
+        new_creds = None
+        how = ("fresh", "copy", "deepcopy", "pickle")[(len(auth_pw) + len(priv_pw) + len(engine_id) + boots) % 4]
+        if how != "fresh":
+            # the new credentials are made FROM the used ones, as the plain Python object
+            # they are: copied (or brought back from a pickle), then given the new password
+            import copy
+            import pickle
+
+            try:
+                new_creds = {"copy": copy.copy, "deepcopy": copy.deepcopy, "pickle": lambda x: pickle.loads(pickle.dumps(x))}[how](w.creds)
+                new_creds.auth = Auth(auth_pw, hashname)
+                new_creds.priv = Priv(new_pw, new_variant)
+                R.mon["rotations_with_credentials_made_by_%s" % how] += 1
+            except Exception:  # noqa: BLE001 - credentials that refuse to be copied/changed: made afresh
+                new_creds = None
+                R.mon["credentials_refused_copy_or_change"] += 1
+        if new_creds is None:
+            new_creds = V3(rig.USER, Auth(auth_pw, hashname), Priv(new_pw, new_variant))
+        c.configure(credentials=new_creds)
         privxf.CALLS.clear()
         n0 = len(w.seam.requests)
         res2 = rig.outcome(lambda: drive(c.get(OID(BASE + (1, 0)))))
@@ -306,6 +324,8 @@ def run(R):
         ambiguous_pairs(R)
     if R.shard == 2 % R.nshards:
         later_requests(R)
+    if R.shard == 3 % R.nshards:
+        shared_credentials(R)
     for i in range(n):
         if not R.mine(i):
             continue
@@ -343,6 +363,43 @@ def run(R):
         PADDING[0] = b""
         if i % 10 == 7:
             run_noauth_priv(R, variant, priv_pw, engine_id, marker)
+
+
+def shared_credentials(R):
+    """ONE credentials object serves the clients of several devices (engines) in one
+    process, turn and turn about: each device's traffic is under the key localised to ITS
+    engine."""
+    db = {BASE + (i, 0): ("str", b"shared-%d" % i) for i in range(1, 4)}
+    for level in ("v3-md5-priv", "v3-sha1-priv"):
+        hashname = "md5" if "md5" in level else "sha1"
+        for variant in VARIANTS[:2]:
+            ck = {"auth_pw": b"shared-auth-pw", "priv_pw": b"shared-priv-pw", "variant": variant}
+            creds = rig.credentials_for(level, **ck)
+            engines = [bytes.fromhex("80001f8804") + b"shared-%d" % j for j in range(3)]
+            worlds = [World(level, db, agent_kwargs={"engine_id": e}, cred_kwargs=ck, creds=creds) for e in engines]
+            case = {"class": "shared-credentials", "level": level, "variant": variant}
+            for turn in range(7):
+                j = (turn * 2) % 3 if turn < 5 else turn % 3
+                w, eng = worlds[j], engines[j]
+                want_key = ber.localized_key(hashname, b"shared-priv-pw", eng)
+                privxf.CALLS.clear()
+                w.seam.budget = 40
+                R.evaluations += 1
+                res = rig.outcome(lambda: drive(w.client.get(OID(BASE + (1 + turn % 3, 0)))))
+                calls = list(privxf.CALLS)
+                bad = [x for x in calls if x["key"] != want_key or x["engine_id"] != eng]
+                if bad:
+                    R.violation(case, "device %d (engine %s), turn %d: the plug-in received key %s for engine %s, Kul for this engine is %s" % (j, eng.hex(), turn, bad[0]["key"].hex(), bad[0]["engine_id"].hex(), want_key.hex()), None)
+                    return
+                if res[0] != "ok" or rig.to_tuple(res[1]) != db[BASE + (1 + turn % 3, 0)] or not calls:
+                    R.violation(case, "device %d, turn %d: round trip failed: %r (%d plug-in calls)" % (j, turn, res[1], len(calls)), None)
+                    return
+                badc = {k: v for k, v in w.agent.counters.items() if k in ("decrypt_error", "wrong_digest") and v}
+                if badc:
+                    R.violation(case, "device %d agent counters %r" % (j, badc), None)
+                    return
+                R.mon["shared_credentials_exchanges_ok"] += 1
+            R.case(("c11-shared", level, variant), True)
 
 
 def later_requests(R):
@@ -421,6 +478,9 @@ def ambiguous_pairs(R):
 
 
 def replay(R, v):
+    if v["case"].get("class") == "shared-credentials":
+        shared_credentials(R)
+        return
     c = v["case"]
     h = lambda k: bytes.fromhex(c[k][4:])  # noqa: E731
     PADDING[0] = bytes.fromhex(c.get("padding", "hex:")[4:])
